@@ -115,6 +115,13 @@ CLAIMS["C20"] = dict(
   text="Decides which struct types are shared between the main loop, the resize goroutine and Printf without a common lock (the pinned design shares the whole editor state: known findings, one per struct type and thread pair), that no field is written under a read lock, that locks are paired and never re-entered, and that nothing blocks while Keys.mutex is held. Absence of races/deadlocks over all interleavings is not decided.",
   ref="§5 C20")
 
+CLAIMS["C12"] = dict(
+  level="proof",
+  technique="static analysis: zone-domain abstract interpretation over go/ssa (difference constraints on integer values and symbolic lengths, branch refinement, boolean-guarded facts, widening) with a modular contract table; plus panic / type-assertion / division / nil inventories and loop-variant and bounded-recursion checks",
+  text="Every index and slice expression in the parser functions reachable from the parse entry points (853 obligations on this tree, including helper preconditions at call sites, postconditions at returns and the len(conds) >= 1 invariant) is proved in range; no explicit panic, unchecked assertion or unguarded division exists; every loop has a termination variant and the $include recursion a checked bound. All obligations must be discharged for the proof level; the check drops to level other (and fails) otherwise. Proof is relative to the stated trusted base (the prover itself, contract/lemma tables, go/ssa, totality of the stdlib calls, a finite reader, returning handler callbacks); integer overflow and narrowing conversions are not modelled.",
+  ref="§5 C12, Appendix B",
+  note="Trusted base: rlcheck/zone.go (the abstract interpreter) and the contract table in rlcheck/c12.go; lemmas on strings.Index/HasPrefix/len; go/packages + go/ssa; totality of strconv/strings/unicode/bufio/fmt/bytes/os/user/filepath; a finite io.Reader; Handler callbacks return; Config maps non-nil; machine-integer overflow not modelled.")
+
 NA_REASONS = {
  "C15": "Cycle coverage is arithmetic over a grid whose shape is computed at run time from candidate widths and terminal width; no pairing/ownership/ordering/table clause is a necessary condition, and a bounds proof of rows[y][x] needs the same run-time shape invariants. A check would be a brittle proxy (DESIGN.md §5 C15, §8).",
 }
